@@ -70,4 +70,27 @@ MUTANTS = [
     (CC, "rank_to_flatconfig_u1_pascal", "rank_into_flatconfig_u1_pascal(flatconfig, r, n, k, pt)", "rank_into_flatconfig_u1_pascal(flatconfig, r, k, n, pt)", "expect-fail"),
     (CC, "rank_to_flatconfig_u1_pascal", "rank_into_flatconfig_u1_pascal(flatconfig, r, n, k, pt)", "rank_into_flatconfig_u1_pascal(flatconfig, r + 1, n, k, pt)", "expect-fail"),
     (CC, "rank_to_flatconfig_u1_pascal", "rank_into_flatconfig_u1_pascal(flatconfig, r, n, k, pt)", "rank_into_flatconfig_u1_pascal(flatconfig, r, n, k - 1, pt)", "expect-fail"),
+    # calculate_strides
+    (CC, "calculate_strides", "strides[i + 1] * sizes[i + 1]", "strides[i + 1] * sizes[i]", "expect-fail"),
+    (CC, "calculate_strides", "range(n - 2, -1, -1)", "range(n - 2, 0, -1)", "expect-fail"),
+    (CC, "calculate_strides", "range(n - 2, -1, -1)", "range(n - 1, -1, -1)", "expect-fail"),
+    (CC, "calculate_strides", "np.ones(n, dtype=np.uint64)", "np.zeros(n, dtype=np.uint64)", "expect-fail"),
+    (CC, "calculate_strides", "strides[i + 1] * sizes[i + 1]", "strides[i + 1] + sizes[i + 1]", "expect-fail"),
+    # flatconfig_to_rank_mixed_radix_nosymm
+    (CC, "flatconfig_to_rank_mixed_radix_nosymm", "r += flatconfig[i] * strides[i]", "r += flatconfig[i]", "expect-fail"),
+    (CC, "flatconfig_to_rank_mixed_radix_nosymm", "range(flatconfig.size)", "range(flatconfig.size - 1)", "expect-fail"),
+    (CC, "flatconfig_to_rank_mixed_radix_nosymm", "range(flatconfig.size)", "range(1, flatconfig.size)", "expect-fail"),
+    (CC, "flatconfig_to_rank_mixed_radix_nosymm", "r = 0", "r = 1", "expect-fail"),
+    (CC, "flatconfig_to_rank_mixed_radix_nosymm", "r += flatconfig[i] * strides[i]", "r = flatconfig[i] * strides[i]", "expect-fail"),
+    # rank_into_flatconfig_mixed_radix_nosymm
+    (CC, "rank_into_flatconfig_mixed_radix_nosymm", "(r // strides[i]) % sizes[i]", "(r % strides[i]) // sizes[i]", "expect-fail"),
+    (CC, "rank_into_flatconfig_mixed_radix_nosymm", "(r // strides[i]) % sizes[i]", "(r // strides[i])", "expect-fail"),
+    (CC, "rank_into_flatconfig_mixed_radix_nosymm", "(r // strides[i]) % sizes[i]", "(r // sizes[i]) % strides[i]", "expect-fail"),
+    (CC, "rank_into_flatconfig_mixed_radix_nosymm", "range(len(sizes))", "range(len(sizes) - 1)", "expect-fail"),
+    (CC, "rank_into_flatconfig_mixed_radix_nosymm", "flatconfig[i] =", "flatconfig[len(sizes) - 1 - i] =", "expect-fail"),
+    # rank_to_flatconfig_mixed_radix_nosymm
+    (CC, "rank_to_flatconfig_mixed_radix_nosymm", "n = len(sizes)", "n = len(sizes) + 1", "expect-fail"),
+    (CC, "rank_to_flatconfig_mixed_radix_nosymm", "(flatconfig, r, sizes, strides)", "(flatconfig, r, strides, sizes)", "expect-fail"),
+    (CC, "rank_to_flatconfig_mixed_radix_nosymm", "(flatconfig, r, sizes, strides)", "(flatconfig, r + 1, sizes, strides)", "expect-fail"),
+    (CC, "rank_to_flatconfig_mixed_radix_nosymm", "return flatconfig", "return sizes", "expect-fail"),
 ]
